@@ -3,6 +3,17 @@ open Model
 open Zconv
 
 let nat s = nat_of_int (int_of_string s)
+
+(* Sizes are unary nat in the extracted code.  removeFront / removeBack accept every usize; an argument
+   above 10^6 (in particular one near 2^64) is passed as size+1, where size = the current size of the
+   variable in the model / reference state.  Justified by C08_remove_clamp / C08_spec_remove_clamp:
+   any two arguments >= size give the same result. *)
+let clamp_big (size_of : int -> int) toks = match toks with
+  | [("rmfront" | "rmback") as o; v; n] when String.length n > 6 ->
+    let sz = (try size_of (int_of_string v) with _ -> 0) in
+    [o; v; string_of_int (sz + 1)]
+  | _ -> toks
+
 let parse_op toks = match toks with
   | ["new"] -> ONew
   | ["newcap"; n] -> ONewCap (nat n)
@@ -68,6 +79,7 @@ let () =
          match st with
          | None -> None
          | Some w ->
+           let toks = clamp_big (fun v -> List.length (exposed (List.nth w v))) toks in
            (match step w (parse_op toks) with
             | Ok (w', r) ->
               emit (Printf.sprintf "%s | %s | %s" (ans_str (is_eq toks) r) (pub_model w') (int_model w'));
@@ -81,6 +93,7 @@ let () =
          match st with
          | None -> None
          | Some qs ->
+           let toks = clamp_big (fun v -> List.length (List.nth qs v)) toks in
            (match spec_step qs (parse_op toks) with
             | Some (qs', r) ->
               emit (Printf.sprintf "%s | %s" (ans_str (is_eq toks) r) (pub_spec qs'));
